@@ -179,7 +179,7 @@ def audit(mods):
 
 
 def cargo_build():
-    lock_src = "/repo/Cargo.lock"
+    lock_src = os.path.join(os.environ.get("VERIF_REPO", "/repo"), "Cargo.lock")
     lock_dst = os.path.join(HARNESS, "Cargo.lock")
     if not os.path.exists(lock_dst) and os.path.exists(lock_src):
         import shutil
